@@ -59,6 +59,7 @@ func runHistory(run *ev.Run, caseIdx int, router int) {
 		run.Violation("C16:"+rn+":"+key, int64(caseIdx), what, map[string]any{"part": "history", "router": rn, "history": log})
 	}
 	steps := 6 + r.IntN(30)
+	began := time.Now()
 	// temperament of the history: how often a poll is made by somebody else / with a bad presentation / under a fault
 	// (calm histories keep device codes untainted so that "must succeed" is decided often, hostile ones probe refusals)
 	hostile := pick(r, 2, 8, 8, 25, 60)
@@ -148,6 +149,11 @@ func runHistory(run *ev.Run, caseIdx int, router int) {
 			d.expired = true
 			run.Count("ops", "expire")
 		default: // ---------- poll ----------
+			if time.Since(began) > cfg.DeviceAuthorization.Lifetime-time.Minute {
+				// the process was stalled for minutes: "pending" could by now be "expired" - no verdict depends on that
+				run.Inconclusive("history stalled near the device-code lifetime")
+				return
+			}
 			if !poll(run, w, r, router, hostile, pop, devs, &log, violated) {
 				return
 			}
